@@ -714,7 +714,10 @@ class Blamer:
                 self.cache[ck] = ("raised" in res) or hexed(res["rows"]) != hexed(ref)
             if self.cache[ck]:
                 return DIM_NAMES[k]
-        return "combined" if self.spent < BLAME_BUDGET else "unattributed"
+        if self.spent >= BLAME_BUDGET:
+            return "unattributed"
+        # no single dimension reproduces it: an interaction; name the dimensions when they are few
+        return "+".join(sorted(DIM_NAMES[k] for k in keys)) if len(keys) <= 3 else "combined"
 
 
 AMB_FAILS = [
